@@ -5,9 +5,56 @@
    the correspondence run); classes: Model/AggClass.v. *)
 From Coq Require Import ZArith List Bool.
 From TV Require Import Model.SqlSpecAgg Model.AggImpl Model.AggClass Model.AggJoin
-  Proof.AggRefute Proof.AggKeys Proof.AggGroups Proof.AggGroupsMain.
+  Proof.AggRefute Proof.AggKeys Proof.AggGroups Proof.AggGroupsMain Proof.AggFold Proof.AggFoldSpec
+  Proof.AggNames Proof.AggQuery3.
 Import ListNotations.
 Open Scope Z_scope.
+
+(* every aggregate function, EVERY list of argument values (SUM / AVG over integers): folding
+   AggregateState::update_value over the values and finalizing gives exactly the reference aggregate --
+   COUNT( * ) = length, COUNT(e) = number of non-NULL, SUM / MIN / MAX over the non-NULL values and NULL
+   when there is none, AVG = SUM / COUNT as a double, MIN / MAX over integers, doubles and text; no
+   checked_add fails *)
+Theorem agg_fold_spec :
+  forall f vs v,
+    int_sums f vs = true ->
+    agg_vals f vs = AVal v ->
+    exists s, fold_upd (kind_of_fn f) st0 (fold_input f vs) = SOk s /\ fin (kind_of_fn f) s = v.
+Proof. exact Proof.AggFoldSpec.agg_fold_spec. Qed.
+Check agg_fold_spec :
+  forall f vs v,
+    int_sums f vs = true ->
+    agg_vals f vs = AVal v ->
+    exists s, fold_upd (kind_of_fn f) st0 (fold_input f vs) = SOk s /\ fin (kind_of_fn f) s = v.
+Print Assumptions agg_fold_spec.
+
+(* where the reference demands an error (the exact integer SUM does not fit in i64) the fold ends in
+   the error `integer overflow in SUM` *)
+Theorem agg_fold_error :
+  forall vs, agg_vals FSum vs = AError -> fold_upd KSum st0 (map Some vs) = SErr.
+Proof. exact Proof.AggFoldSpec.agg_fold_error. Qed.
+Check agg_fold_error :
+  forall vs, agg_vals FSum vs = AError -> fold_upd KSum st0 (map Some vs) = SErr.
+Print Assumptions agg_fold_error.
+
+(* the whole query: for EVERY query whose GROUP BY keys and aggregate arguments are plain columns (any
+   WHERE, any list of aggregates, any select list over keys and aggregates, HAVING over the keys and
+   ANY of the aggregates, selected or not) and EVERY table on which the reference makes a demand (SUM /
+   AVG over integers), the faithful model of TurDB's execution returns exactly the rows the reference
+   demands: one row per distinct key (NULL keys one group), one row for an empty input without GROUP
+   BY and none with, COUNT / SUM / AVG / MIN / MAX as specified (NULLs skipped, NULL over no value, text),
+   HAVING keeping a group iff its predicate is TRUE.  Such queries lie outside the open classes 9 and
+   10 (which need an expression key or argument); class 8 is the join path *)
+Theorem query_correct_plain_columns :
+  forall q t rs,
+    forallb is_plain (q_keys q) = true -> forallb plain_agg (q_aggs q) = true -> q_int_sums q t = true ->
+    spec_query q t = SRows rs -> model_query q t = MRows rs.
+Proof. exact Proof.AggQuery3.query_correct_plain_columns. Qed.
+Check query_correct_plain_columns :
+  forall q t rs,
+    forallb is_plain (q_keys q) = true -> forallb plain_agg (q_aggs q) = true -> q_int_sums q t = true ->
+    spec_query q t = SRows rs -> model_query q t = MRows rs.
+Print Assumptions query_correct_plain_columns.
 
 (* GROUP BY over plain columns (each key column of one kind): whenever HashAggregate gets through,
    its table IS the reference grouping -- one entry per distinct key in order of first occurrence
@@ -128,3 +175,27 @@ Example groups_partition_nonvacuous :
     map (fun e : gentry => snd (fst e) ++ finalize_all [MCount AStar; MSum (ACol 0%nat)] (snd e)) tbl =
       [[VNull; VInt 2; VInt 4]; [VInt 7; VInt 2; VInt 7]; [VInt 0; VInt 1; VInt 4]].
 Proof. cbv zeta. split; [reflexivity|]. eexists; eexists. repeat split; vm_compute; reflexivity. Qed.
+
+(* non-vacuity of agg_fold_spec / agg_fold_error: NULL-rich inputs of every function, text, overflow *)
+Example agg_fold_nonvacuous :
+  let vs := [VInt 3; VNull; VInt (-5); VInt 3] in
+  (int_sums FSum vs = true /\ agg_vals FSum vs = AVal (VInt 1)) /\
+  (int_sums FAvg vs = true /\ exists a, agg_vals FAvg vs = AVal (VFloat a)) /\
+  agg_vals FMin vs = AVal (VInt (-5)) /\ agg_vals FCount vs = AVal (VInt 3) /\ agg_vals FCountStar vs = AVal (VInt 4) /\
+  agg_vals FSum [VNull; VNull] = AVal VNull /\ agg_vals FSum [] = AVal VNull /\
+  agg_vals FMax [VText [97]; VNull; VText [98]] = AVal (VText [98]) /\
+  agg_vals FSum [VInt 9223372036854775807; VInt 1] = AError.
+Proof. cbv zeta. repeat split; try (vm_compute; reflexivity). eexists; vm_compute; reflexivity. Qed.
+
+(* non-vacuity of query_correct_plain_columns: NULL keys, NULLs under COUNT / SUM / MIN, a group whose SUM
+   has no value, text MAX, HAVING over an aggregate that is not selected *)
+Example query_correct_nonvacuous :
+  let t := [[VInt 1; VNull; VInt 5; VText [97]]; [VInt 2; VNull; VInt 7; VNull]; [VInt 3; VInt 1; VNull; VText [98]];
+            [VInt 4; VInt 1; VNull; VText [97]]; [VInt 5; VInt 2; VInt 3; VNull]] in
+  let q := mkQ (Some (ECmp CGt (ECol 0) (ELit (VInt 0)))) [ECol 1]
+               [mkAgg FCount (ECol 2); mkAgg FSum (ECol 2); mkAgg FMax (ECol 3); mkAgg FCountStar (ECol 0)]
+               [0%nat; 1%nat; 2%nat; 3%nat]
+               (Some (ECmp CGt (ECol 4) (ELit (VInt 1)))) in
+  forallb is_plain (q_keys q) = true /\ forallb plain_agg (q_aggs q) = true /\ q_int_sums q t = true /\
+  spec_query q t = SRows [[VNull; VInt 2; VInt 12; VText [97]]; [VInt 1; VInt 0; VNull; VText [98]]].
+Proof. cbv zeta. repeat split; vm_compute; reflexivity. Qed.
